@@ -11,16 +11,26 @@ NOTHING = '__NOTHING__'       # marker: no response at all
 
 
 def typed_eq(a, b):
-    """JSON equality that keeps JSON types apart (1 != 1.0 != true, "1" != 1)"""
-    if type(a) is not type(b):
-        return False
-    if isinstance(a, list):
-        return len(a) == len(b) and all(typed_eq(x, y) for x, y in zip(a, b))
-    if isinstance(a, dict):
-        return a.keys() == b.keys() and all(typed_eq(a[k], b[k]) for k in a)
-    if isinstance(a, float) and a != a:
-        return b != b
-    return a == b
+    """JSON equality that keeps JSON types apart (1 != 1.0 != true, "1" != 1); iterative, so any nesting depth is fine"""
+    stack = [(a, b)]
+    while stack:
+        a, b = stack.pop()
+        if type(a) is not type(b):
+            return False
+        if isinstance(a, list):
+            if len(a) != len(b):
+                return False
+            stack.extend(zip(a, b))
+        elif isinstance(a, dict):
+            if a.keys() != b.keys():
+                return False
+            stack.extend((a[k], b[k]) for k in a)
+        elif isinstance(a, float) and a != a:
+            if b == b:
+                return False
+        elif a != b:
+            return False
+    return True
 
 
 def bind_ref(spec, params):
